@@ -9,8 +9,8 @@ from . import check_world as CW
 
 MODULES = {
     "C02": ["NSG.Properties.C02", "NSG.Properties.SystemInv", "NSG.Properties.SystemMono"],
-    "C03": ["NSG.Properties.C03", "NSG.Properties.C03Loader", "NSG.Properties.SystemInv"],
-    "C08": ["NSG.Properties.C08", "NSG.Properties.SystemInv"],
+    "C03": ["NSG.Properties.C03", "NSG.Properties.C03Loader", "NSG.Properties.SystemInv", "NSG.Properties.SystemLoaded"],
+    "C08": ["NSG.Properties.C08", "NSG.Properties.SystemInv", "NSG.Properties.SystemLoaded"],
     "C11": ["NSG.Properties.C11", "NSG.Properties.SystemInv", "NSG.Properties.SystemMono"],
     "C12": ["NSG.Properties.C12", "NSG.Properties.C12Coord", "NSG.Properties.SystemInv"],
 }
